@@ -54,6 +54,13 @@ def body(c):
         else:
             c.traces += 1
     c.extra["outcomes"] = dict(cnt)
+    # impl -> spec: sorting of random nested policies (thresholds with compound children), validated by Trace_Policy.tla
+    spath = os.path.join(c.work, "sort.ndjson")
+    c.vh(["c16", "sort", 2000 if q else 40000, spath], timeout=3000)
+    def describe_sort(ev):
+        return ("c16:sort-nested", "sorted() of %s is %s; of the reordering %s it is %s (idempotent=%s)" % (
+            json.dumps(ev.get("pol")), json.dumps(ev.get("sorted")), json.dumps(ev.get("perm")), json.dumps(ev.get("perm_sorted")), ev.get("idempotent")))
+    validate_trace(c, "Trace_Policy", "Trace_Policy.cfg", spath, describe_sort, heap="4g", timeout=3000)
     c.sample({"policy": cases[len(cases) // 2]["pol"], "available": {k: cases[len(cases) // 2][k] for k in ("sigs", "pres", "height", "seq")},
               "holds": cases[len(cases) // 2]["holds"]})
     c.assumptions += ["keys are two fixed secret keys with real BIP-340 signatures over the environment's sighash_all; hashes have real preimages",
@@ -63,7 +70,8 @@ def body(c):
     c.finish_kw = dict(exhaustive=True, rule=(
         "TLC: every policy of depth <= 1 (2 in thorough, by composition) over {unsat, trivial, key k1|k2, sha h1, after 1|5, older 1|5} with and/or/"
         "thresh(k, 2-3) x every subset of available signatures/preimages x lock height/sequence in {0,3,9}: satisfier model = truth, "
-        "sorting idempotent and permutation-invariant; sampled cases replayed with real keys, signatures, preimages and environments"))
+        "sorting idempotent and permutation-invariant; sampled cases replayed with real keys, signatures, preimages and environments; "
+        "random nested policies (depth 3, thresholds of 2-4 compound children) sorted by the crate and validated by Trace_Policy: sorting only reorders, is idempotent and independent of the given order"))
 
 if __name__ == "__main__":
     main("C16", body)
